@@ -25,6 +25,13 @@ func GenC09() *rapid.Generator[C09Case] {
 		c := C09Case{Sc: sg.Draw(t, "scenario"), Step: rapid.SampledFrom([]string{"A", "A", "B", "B", "C"}).Draw(t, "terminal step")}
 		c.Sc.Opts.DropOffAge = rapid.IntRange(1, 8).Draw(t, "small dropoff age") // stagnation, purges and delta coding occur
 		c.Sc.Epochs--                                                            // the terminal step is the last turnover
+		if rapid.IntRange(0, 14).Draw(t, "one huge organism") == 3 {
+			// one organism close to the largest float64 while the population total stays finite: fitness times the number of
+			// organisms is not representable, fitness divided by the mean is
+			c.Sc.Fit = FitnessProg{Kind: "dominant", Scale: rapid.SampledFrom([]float64{1e304, 5e304, 1e305}).Draw(t, "huge scale"), Salt: c.Sc.Fit.Salt}
+			c.Sc.Opts.AgeSignificance = 1 // see the known finding on fitness times age significance
+			c.Sc.Switch = nil
+		}
 		return c
 	})
 }
@@ -55,6 +62,9 @@ func CheckC09(c C09Case, rec *Rec) error {
 		n := len(pop.Organisms)
 		for i, o := range pop.Organisms {
 			o.Fitness = fitnessOf(sc.Fit, e, i, n, o.Genotype)
+			if sc.Winners > 0 {
+				o.IsWinner = int(unitHash(sc.Fit.Salt, int64(e), int64(i), 77)*1000)%sc.Winners == 0
+			}
 		}
 	}
 	for e := 0; e < sc.Epochs; e++ {
